@@ -99,6 +99,16 @@ TrInitialStart ==
        \cup Flag(R.taken = OptSkip(sc), "C04:initial_start_vs_skip_ext_time")
   /\ UNCHANGED <<sc, phase, p, st, initStart, tsStart, tsEnd, cnt, snap, calls, rounds, panicSeen, lastSize, curCnt, expCnt, expAl>>
 
+(* The one-off measurement of divan's own overheads (first benchmark of a   *)
+(* process) takes time that is not benchmarking time: it must be over        *)
+(* before the initial timestamp is taken ("elapsed time runs from just       *)
+(* before the first sample").                                                *)
+TrOverheadsMeasured ==
+  /\ Is("overheads_measured")
+  /\ bad' = bad \cup Flag(R.cost > 0 /\ initStart # -1,
+                          "C04:one_off_overhead_measurement_charged_to_the_time_budget")
+  /\ UNCHANGED <<sc, phase, p, st, initStart, tsStart, tsEnd, cnt, snap, calls, rounds, panicSeen, lastSize, curCnt, expCnt, expAl>>
+
 TrLoopBegin ==
   /\ Is("loop_begin")
   /\ LET np == [test |-> IsTest(sc), n |-> OptN(sc), sOpt |-> OptS(sc),
@@ -288,7 +298,7 @@ TrOther ==
 
 TrNext ==
   \/ TrReset \/ TrBenchCall \/ TrPrecBegin \/ TrPrecEnd \/ TrTsPrec \/ TrTsInitial
-  \/ TrInitialStart \/ TrLoopBegin \/ TrTsRound \/ TrSnapshot \/ TrCall \/ TrCount
+  \/ TrInitialStart \/ TrOverheadsMeasured \/ TrLoopBegin \/ TrTsRound \/ TrSnapshot \/ TrCall \/ TrCount
   \/ TrRoundEnd \/ TrTestBreak \/ TrUserPanic \/ TrBenchReturn \/ TrReport
   \/ TrOther
 
